@@ -159,7 +159,7 @@ func init() {
 	Props["C08"] = &PropSpec{
 		ID: "C08", Level: "exploration",
 		Technique: "deterministic simulation: seeded operation sequences on index.Index over the simulated disk with the in-memory primary, location reference model plus structural checks of the bucket's record list after every operation",
-		Rule: "one case = 2-10 equal-length keys (bucket bytes + 2..6 bytes over an alphabet of 2-4 symbols, one or two buckets, index bits 8/12/16, 24 in thorough) and 4-40 operations Put(new key) / Update / Remove / Get(present and absent) / Flush, index file limits from 16 bytes to default, file cache 0/1; oracle: Get of a present key returns exactly its latest location, Get of an absent key returns nothing or the location of another present key; after every mutation the bucket's record list is strictly sorted, prefix-free, every stored prefix is a prefix of its own full key (fetched through its location), every present key has exactly one entry, and the list differs from the previous one only in the addressed key's entry (an insertion may lengthen at most one neighbour); " +
+		Rule: "one case = 2-10 equal-length keys (bucket bytes + 2..6 bytes over an alphabet of 2-4 symbols, one or two buckets, index bits 8/12/16, 24 in thorough) and 4-40 operations Put(new key) / Update / Remove / Get(present and absent) / Flush, index file limits from 16 bytes to default, file cache 0/1; oracle: Get of a present key returns exactly its latest location, Get of an absent key returns nothing or the location of another present key; after every mutation the bucket's record list is strictly sorted, prefix-free, every stored prefix is a prefix of its own full key (fetched through its location), every present key has exactly one entry, and an update or removal changes only the addressed key's entry (an insertion may re-trim neighbours but must keep every other entry's location); " +
 			"non-trivial = at least one pair of keys shares a bucket and the first stored byte; distinct = distinct (plan hash, schedule hash)",
 		Nontrivial:  func(o *RunOut) bool { return o.Probes["shared-prefix-pairs"] > 0 },
 		Assumptions: []string{"seeded random search, not exhaustive enumeration of the bounded space", "no schedule or fault dimension: one task"},
@@ -182,7 +182,7 @@ func init() {
 	Props["C11"] = &PropSpec{
 		ID: "C11", Level: "exploration",
 		Technique: "deterministic simulation: seeded histories that end with chosen primary/index files holding no live data (or falling below the low-use threshold), followed by bounded rounds of (GC cycle, Flush) with progress, conservation and fixed-point checks on the simulated disk",
-		Rule: "one case = generated history on the multihash primary with 32 B-1 KiB file limits; then (mode 0/2) every key whose current location (read through Index.Get) lies in a chosen subset of the non-current primary files is removed or overwritten and the change flushed, or (mode 1) files are pushed below a low-use threshold t in {1,50,74,85}; oracle: within B = 4 + moved records rounds (6 + 3*moved for low-use draining; x3 with countdown-interrupted cycles) of (primary GC, Flush) every targeted file is zero-length or unlinked, the oldest file if targeted is unlinked and the header first-file number advanced; mode 2: index files no bucket refers into are emptied within 2 + #index-files index GC cycles; GC cycle errors are violations; cycles without relocation never increase StorageSize, a flush after a relocating cycle grows the primary by at most the relocated bytes; repeated rounds reach a fixed point (3 consecutive rounds changing no file) within a bound and never leave it; " +
+		Rule: "one case = generated history on the multihash primary with 32 B-1 KiB file limits; then (mode 0/2) every key whose current location (read through Index.Get) lies in a chosen subset of the non-current primary files is removed or overwritten and the change flushed, or (mode 1) files are pushed below a low-use threshold t in {1,50,74,85}; oracle: within B = 10 + 4*moved records rounds (12 + 6*moved for low-use draining; x3 with countdown-interrupted cycles) of (primary GC, Flush) every targeted file is zero-length or unlinked, the oldest file if targeted is unlinked and the header first-file number advanced; mode 2: index files no bucket refers into are emptied within 2 + #index-files index GC cycles; GC cycle errors are violations; cycles without relocation never increase StorageSize, a flush after a relocating cycle grows the primary by at most the relocated bytes; repeated rounds reach a fixed point (3 consecutive rounds changing no file) within a bound and never leave it; " +
 			"non-trivial = at least one targeted file was released or a fixed point was verified after real GC work; distinct = distinct (plan hash, schedule hash)",
 		Nontrivial: func(o *RunOut) bool { return o.Probes["primary-released"]+o.Probes["index-released"] > 0 },
 		Assumptions: []string{
